@@ -278,4 +278,20 @@ inductive DerivesString (g : G) (p : P) (sk : Sk) (s : List Nat) : Top → Prop 
   | ok {r0 v} : SkDerives sk s (.ok r0) → Derives g p sk r0 (.ok v []) → DerivesString g p sk s (.ok v)
   | rest {r0 v c r} : SkDerives sk s (.ok r0) → Derives g p sk r0 (.ok v (c :: r)) → DerivesString g p sk s (.err false)
 
+/-! ## well-formedness vocabulary (Ford): syntactic over-approximation of "may succeed without consuming" -/
+
+def nullable : P → Bool
+  | .eps => true | .fail => false | .any => false | .lit _ => false | .cset _ => false | .compl _ => false
+  | .str s => s.isEmpty
+  | .seq a b => nullable a && nullable b
+  | .alt a b => nullable a || nullable b
+  | .rep _ => true | .opt _ => true | .not _ => true
+  | .fatal a => nullable a | .lexeme a => nullable a | .conv _ a => nullable a | .convIf _ a => nullable a
+  | .ignore a => nullable a | .named a => nullable a
+  | .ref _ => true
+  | .plus a => nullable a
+  | .sep _ _ => true
+  | .list o _ _ c => nullable o && nullable c
+  | .uint _ => false | .int _ => false
+
 end Fcppt.C02
